@@ -229,6 +229,7 @@ Definition exec_prim (p : prim) (f : frame) (s : shared) : list (frame * shared)
       | l => map (fun n => (f, set_readable n s)) l
       end
   | PSetBufRest => [(f, set_bufptr true s)]
+  | PCloseBacklog => [(f, set_accepts 0 s)]
   | PSendAll => [(f, set_room true s); (f, set_room false s)]
   | PInput =>
       let s1 := set_readable (sat_add cap (readable s) (f_argk f)) s in
